@@ -84,17 +84,17 @@ type Obj struct {
 
 // File is the result of decoding.
 type File struct {
-	B           []byte
-	SbVersion   int
+	B            []byte
+	SbVersion    int
 	OffSz, LenSz int
-	Base, EOA   uint64
-	Root        uint64
-	Extents     []Extent
-	Objs        []*Obj
-	Errs        []string // structural errors: the walk could not follow something
-	Unsupported []string
-	seen        map[uint64]bool // object headers already expanded (hard links)
-	inProgress  map[uint64]bool
+	Base, EOA    uint64
+	Root         uint64
+	Extents      []Extent
+	Objs         []*Obj
+	Errs         []string // structural errors: the walk could not follow something
+	Unsupported  []string
+	seen         map[uint64]bool // object headers already expanded (hard links)
+	inProgress   map[uint64]bool
 }
 
 func (f *File) u(off, n int) uint64 {
